@@ -170,8 +170,13 @@ def obligations(tier, seed):
         for (o, c) in isos:
             for kind in KINDS:
                 q = dict(p, kind=kind, iso=[o, c])
+                if tier == "quick" and kind in ("replace", "replace_range"):
+                    ns = common.templates.nslices(p["schema"])     # ns = the empty slice; ns-3, ns-1 = slices that start inside an isolating node
+                    for part, xs in enumerate(([1, 5, 13], [ns - 3, ns - 1, ns])):
+                        obs.append({"name": "%s/%s/iso@%d/x%d" % (kind, tag, o, part), "fn": "ob_edit", "P": dict(q, xs=xs), "timeout": T})
+                    continue
                 if tier == "quick" and kind not in ("delete", "delete_range", "insert"):
-                    q["xs"] = [1, 5, 13] if kind in ("replace", "replace_range") else [0, 2, 7]
+                    q["xs"] = [0, 2, 7]
                 obs.append({"name": "%s/%s/iso@%d" % (kind, tag, o), "fn": "ob_edit", "P": q, "timeout": T})
         obs.append({"name": "helpers/%s" % tag, "fn": "ob_helpers", "P": p, "timeout": T * 2})
         obs.append({"name": "max_open/%s" % tag, "fn": "ob_max_open", "P": p, "timeout": T})
